@@ -17,6 +17,7 @@ RULE = ('operation sequences over one list and one dict held in a persistent nam
         'Exhaustive to depth 2 (quick) / 3 (thorough) over the alphabet from two starting states, random to length 30, and sequences on lists/dicts of 9998-10001 elements. '
         'Each step compares result class+value and full container contents; every write is followed by a read-back. Non-trivial = a step whose result and contents were compared; '
         'distinct = distinct (start state, operation sequence).')
+RULE += ' Sequences of the non-inserting dict lookups also run on a host defaultdict; half of the cases use a long-lived caching parser.'
 ASSUMPTIONS = ['R4: list index = truncation toward zero of a decimal, negative from the end; dict key = str(key) on literal, write, read, compound write, get and del',
                'for operations the statement does not pin (del of a missing key/index, write or pop(i) at an out-of-range index) the model accepts "raises any Exception or does nothing", '
                'but requires the container unchanged; remove and `in` use the raw key (no cast)',
